@@ -67,8 +67,8 @@ def OSt.notified (s : OSt) (touch : Bool) (l : List Call) : OSt :=
   unfold OSt.ensureItrait OSt.tn
   cases h : s.it <;> simp [h]
 
-@[simp] theorem tn_mk_same (s : OSt) (self : Id) (slot : Option Id) (on : Option (List Notifier)) (nn : Bool)
-    (ctx : Ctx) : (OSt.mk self slot s.cn s.it on nn ctx).tn = s.tn := rfl
+@[simp] theorem tn_mk_same (s : OSt) (self : Id) (name : Name) (slot : Option Id) (on : Option (List Notifier))
+    (nn : Bool) (ctx : Ctx) : (OSt.mk self name slot s.cn s.it on nn ctx).tn = s.tn := rfl
 
 @[simp] theorem ensureItrait_idem (s : OSt) : s.ensureItrait.ensureItrait = s.ensureItrait := by
   unfold OSt.ensureItrait
